@@ -22,7 +22,9 @@ Fixpoint lookup_vm (tbl : list (N * vm_result)) (h : N) : vm_result :=
   | (h', r) :: tl => if (h =? h')%N then r else lookup_vm tl h
   end.
 
-Record block := { b_no : N; b_validator : bool; b_txs : list (tx * bool) (* tx, force *) }.
+Record block := { b_no : N; b_validator : bool; b_txs : list (tx * bool) (* tx, force *);
+                  b_deliver : N (* chain mode: 0 from the network; 1 with the block state it was produced from
+                                   (commit-only path); 2 with a block state that disagrees with the header *) }.
 Record case := {
   k_cfg : config;
   k_chain_mode : bool;
@@ -91,7 +93,13 @@ Section Run.
       if ab then obs ++ [[0; 0]] ++ run_blocks s prev_no tl
       else
         let s_end := send_reward_coinbase s' (k_coinbase c) in
-        if k_chain_mode c then
+        if k_chain_mode c && (b_deliver b =? 1)%N then
+          (* commit-only path: not re-executed, no signature stage; header roots = the supplied state's roots *)
+          obs ++ [[1; bp_reward s_end] ++ xdump s_end] ++ run_blocks s_end bno tl
+        else if k_chain_mode c && (b_deliver b =? 2)%N then
+          (* validatePost refuses: the supplied block state is not the one the header commits to *)
+          obs ++ [[0; bp_reward s_end] ++ xdump s] ++ run_blocks s prev_no tl
+        else if k_chain_mode c then
           match exec_block is_name_std (lookup3 (k_cids c)) tx_hash_std xvm sig_ok_std (k_cfg c) bno (k_coinbase c) (fun x => x) s inc with
           | Some s2 => obs ++ [[1; bp_reward s_end] ++ xdump s2] ++ run_blocks s2 bno tl
           | None => obs ++ [[0; bp_reward s_end] ++ xdump s] ++ run_blocks s prev_no tl
